@@ -15,6 +15,7 @@ from ..ref import quat as rq
 PROP = "C04"
 LEVEL = "exploration"
 SHARDS = {"quick": 4, "thorough": 16}
+THOROUGH_DEPTH = 15      # thorough tier = this many times the base thorough budget (VERIF_DEPTH overrides)
 THOROUGH_QUOTA_MULT = 3
 TOL_FREE = 1e-9
 TOL_GENERAL = 1e-7
@@ -92,7 +93,7 @@ def generate(rng, tier, shard, nshards):
         yield Case("free", "generic", q=gens.unit(rng), dip=draw_dip(rng, i), sa=gens.logu(rng, 1e-2, 1e2),
                    sm=gens.logu(rng, 1e-2, 1e3), seed=int(rng.integers(2**31)))
     sp = gens.special_poses()
-    reps = 1 if tier == "quick" else 3
+    reps = 1 if tier == "quick" else gens.reps(3, tier)
     k = 0
     for rep in range(reps):
         for lab, q in sp:
